@@ -15,6 +15,8 @@ from mc import common
 R = common.bootstrap()
 from mc import dsched, explore, world as W  # noqa: E402
 
+W.install_virtual_time()
+
 PID = 'C09'
 
 # ---------------------------------------------------------------- harness data
@@ -149,9 +151,9 @@ def run_c09(params, prefix):
         holder['repo'] = repo
         with W.captured():
             if kind == 'snapshot':
-                res = await repo.snapshot(paths=[d])
+                res = await repo.snapshot(paths=[d], rate_limit=params.get('rate'))
             else:
-                res = await repo.restore(path=target)
+                res = await repo.restore(path=target, rate_limit=params.get('rate'))
         return res
 
     x = dsched.run_one(lambda loop, s: go(), prefix, horizon=params.get('horizon', 6000),
@@ -160,6 +162,8 @@ def run_c09(params, prefix):
     viol = []
     out = {'points': x.points, 'states': x.states, 'edges': x.edges, 'err': None}
     base_sig = {'kind': kind, 'tree': tree, 'N': N, 'be': be, 'fault': list(fault) if fault else None}
+    if params.get('rate'):
+        base_sig['rate'] = params['rate']
 
     def bad(what, **kw):
         viol.append((dict(base_sig, what=what, **{k: v for k, v in kw.items() if k in ('exc',)}),
@@ -259,6 +263,9 @@ def harnesses(t):
             for tree in ('restA', 'restB', 'restC'):
                 hs.append({'kind': 'restore', 'tree': tree, 'N': N, 'be': be})
     for be in ('plain', 'async'):
+        # with a bandwidth limit: the limiter's lock and (virtual) sleeps take part in the schedule
+        hs.append({'kind': 'snapshot', 'tree': 'snapA', 'N': 2, 'be': be, 'rate': 64})
+        hs.append({'kind': 'restore', 'tree': 'restB', 'N': 2, 'be': be, 'rate': 64})
         hs.append({'kind': 'snapshot', 'tree': 'snapC', 'N': 1, 'be': be, 'horizon': 12000})
         for N in (1, 2):
             hs.append({'kind': 'snapshot', 'tree': 'snapA', 'N': N, 'be': be, 'fault': ('upload_stream', 2)})
